@@ -11,6 +11,7 @@ import (
 	abci "github.com/cometbft/cometbft/abci/types"
 	sdk "github.com/cosmos/cosmos-sdk/types"
 	banktypes "github.com/cosmos/cosmos-sdk/x/bank/types"
+	stakingtypes "github.com/cosmos/cosmos-sdk/x/staking/types"
 	gogoproto "github.com/cosmos/gogoproto/proto"
 	ethcommon "github.com/ethereum/go-ethereum/common"
 	ctypes "github.com/palomachain/paloma/v2/x/consensus/types"
@@ -31,6 +32,7 @@ import (
 
 const (
 	Ref   = "eth-main"
+	Ref2  = "bnb-main"
 	Erc20 = "0x1111111111111111111111111111111111111111"
 	NBlk  = 362
 )
@@ -63,8 +65,24 @@ func (s *Script) Setup() {
 	w := s.W
 	ctx := w.Root
 	must(w.StdChain(ctx, Ref))
+	// a second, quiet chain (no contract calls are ever queued for it): the only valset updates it
+	// receives come from the keep-warm decision when a new snapshot is built
+	must(w.AddChain(ctx, Ref2, 56, 1))
+	for _, v := range w.Vals {
+		must(w.RegisterAccounts(ctx, v, nil, Ref, Ref2))
+		must(w.App.TreasuryKeeper.SetRelayerFee(ctx, v.ValAddr, &treasurytypes.RelayerFeeSetting{ValAddress: v.ValAddr.String(), Fees: []treasurytypes.RelayerFeeSetting_FeeSetting{
+			{Multiplicator: sdkmath.LegacyMustNewDecFromStr("1.0"), ChainReferenceId: Ref}, {Multiplicator: sdkmath.LegacyMustNewDecFromStr("1.0"), ChainReferenceId: Ref2}}}))
+	}
+	sn, err := w.Snapshot(ctx)
+	must(err)
+	if sn == nil {
+		panic("second snapshot not worthy")
+	}
+	must(w.App.ValsetKeeper.SetSnapshotOnChain(ctx, sn.Id, Ref))
+	must(w.App.ValsetKeeper.SetSnapshotOnChain(ctx, sn.Id, Ref2))
 	// differentiate fees a little so that scores are not all tied, but keep two tied
-	must(w.SetFee(ctx, w.Vals[3], Ref, "1.5"))
+	must(w.App.TreasuryKeeper.SetRelayerFee(ctx, w.Vals[3].ValAddr, &treasurytypes.RelayerFeeSetting{ValAddress: w.Vals[3].ValAddr.String(), Fees: []treasurytypes.RelayerFeeSetting_FeeSetting{
+		{Multiplicator: sdkmath.LegacyMustNewDecFromStr("1.5"), ChainReferenceId: Ref}, {Multiplicator: sdkmath.LegacyMustNewDecFromStr("1.0"), ChainReferenceId: Ref2}}}))
 	must(w.App.EvmKeeper.SetSmartContractDeployer(ctx, Ref, "0x00000000000000000000000000000000000000dd"))
 	must(w.App.EvmKeeper.SetFeeManagerAddress(ctx, Ref, "0x00000000000000000000000000000000000000fe"))
 	d, err := w.BridgeToken(ctx, w.User("adm"), "t1", Ref, Erc20, 100000, w.User("U1"), w.User("U2"))
@@ -154,7 +172,8 @@ func (s *Script) TxsFor(i int, rctx sdk.Context) []Tx {
 	case 7:
 		v := w.Vals[2]
 		add(v.Actor, &vtypes.MsgAddExternalChainInfoForValidator{Metadata: world.Meta(v.Actor), ChainInfos: []*vtypes.ExternalChainInfo{{
-			ChainType: "evm", ChainReferenceID: Ref, Address: v.EthAddr(), Pubkey: ethAddrBytes(v), Traits: []string{vtypes.PIGEON_TRAIT_MEV}}}})
+			ChainType: "evm", ChainReferenceID: Ref, Address: v.EthAddr(), Pubkey: ethAddrBytes(v), Traits: []string{vtypes.PIGEON_TRAIT_MEV}},
+			{ChainType: "evm", ChainReferenceID: Ref2, Address: v.EthAddr(), Pubkey: ethAddrBytes(v)}}})
 		zz := "factory/" + u2.Addr.String() + "/zz"
 		add(u2, &tftypes.MsgMint{Amount: sdk.NewInt64Coin(zz, 500), Metadata: world.Meta(u2)})
 		add(u2, &tftypes.MsgBurn{Amount: sdk.NewInt64Coin(zz, 5), Metadata: world.Meta(u2)})
@@ -185,6 +204,10 @@ func (s *Script) TxsFor(i int, rctx sdk.Context) []Tx {
 			add(v.Actor, world.DepositClaim(v, Ref, last+1, 12, Erc20, 31, "0x00000000000000000000000000000000000000bb", u2.Addr.String()))
 			add(v.Actor, world.DepositClaim(v, Ref, last+2, 13, Erc20, 32, "0x00000000000000000000000000000000000000bb", u1.Addr.String()))
 		}
+	case 20:
+		// a stake change that reorders the validators: the snapshot built at height 50 is "worthy"
+		// and goes through the publish-to-chains decision (keep-warm rule)
+		add(u1, stakingtypes.NewMsgDelegate(u1.Addr.String(), w.Vals[3].ValAddr.String(), sdk.NewInt64Coin(world.BondDenom, 700_000)))
 	case 100:
 		add(u1, &evmtypes.MsgRemoveUserSmartContractRequest{Metadata: world.Meta(u1), Id: 1})
 	case 120:
